@@ -19,7 +19,7 @@ Bound == opn <= MaxOps /\ nextId <= MaxBlobId + 1 /\ Len(slots) <= MaxBlobId + 2
 \* PROPERTIES would send TLC through its liveness machinery, 30 times slower.)
 RecsOfLive == {<<b, blob[b].recs>> : b \in {x \in Live : blob[x].recs # <<>>}}
 StepChecks ==
-  Assert(IsData \/ RecsOfLive' = RecsOfLive,
+  Assert(IsData \/ act'.s = "corrupt" \/ RecsOfLive' = RecsOfLive,
          <<"Transparent violated: a non-data action changed the live records", act'>>)
 
 On(a) == a \in MCActs
@@ -47,6 +47,9 @@ MCRestart ==
 \* the full per-file product of damage classes
 MCRestartFull == On("restart_full") /\ \E g \in BOOLEAN, lz \in BOOLEAN, d \in Damages : Restart(g, lz, d)
 
-MCNext == (MCData \/ MCLife \/ MCRestart \/ MCRestartFull) /\ StepChecks
+\* one blob file found unreadable at start-up (quarantine)
+MCRestartCorrupt == On("restart_corrupt") /\ \E g \in BOOLEAN, lz \in BOOLEAN, v \in Ids : RestartCorrupt(g, lz, v)
+
+MCNext == (MCData \/ MCLife \/ MCRestart \/ MCRestartFull \/ MCRestartCorrupt) /\ StepChecks
 MCSpec == Init /\ [][MCNext]_vars
 =============================================================================
